@@ -26,7 +26,7 @@ import (
 )
 
 const verifDir = "/verif"
-const repoDir = "/repo"
+var repoDir = "/repo"
 
 var goBin = "/opt/veriftools/go1.26.8/bin/go"
 
@@ -460,6 +460,9 @@ func main() {
 	}
 	if g := os.Getenv("VERIF_GO"); g != "" {
 		goBin = g
+	}
+	if d := os.Getenv("VERIF_REPO_DIR"); d != "" {
+		repoDir = d // development only: run the checks against another checkout
 	}
 	if os.Args[1] == "build" {
 		prepare()
